@@ -43,6 +43,7 @@ pub fn pos(r: &mut Rng) -> Pos {
         8 => Pos::A(r.below(8) as usize),
         9 => Pos::A(r.below(40) as usize),
         10 => Pos::M(r.below(3) as u8),
+        _ if r.chance(1, 2) => Pos::C(r.range(-2, 2) as i8),
         _ => Pos::L(-(r.below(30) as i32)),
     }
 }
@@ -257,6 +258,7 @@ fn reserve_pos(r: &mut Rng) -> Pos {
         0..=4 => Pos::A(small(r)),
         5 => Pos::A(0),
         6 => Pos::M(r.below(2) as u8),
+        _ if r.chance(1, 2) => Pos::S(r.range(-1, 2) as i8),
         _ => Pos::A(1 + r.below(2000) as usize),
     }
 }
@@ -345,7 +347,7 @@ pub fn sop(r: &mut Rng) -> SOp {
             }
             _ => SOp::Recreate(sctor(r)),
         },
-        29 => SOp::Reserve(Pos::A(small(r))),
+        29 => SOp::Reserve(if r.chance(1, 4) { Pos::S(r.range(-1, 2) as i8) } else { Pos::A(small(r)) }),
         30 => {
             if r.chance(1, 2) {
                 SOp::ReserveExact(Pos::A(small(r)))
